@@ -257,6 +257,45 @@ class LogOracle:
         return fail
 
 
+def commit_selection(c, pst):
+    """the patches `stg commit` is asked to commit, read off its arguments independently of stg's
+    range resolver; None when an argument is not a plain name or a name..name range"""
+    A, U = pst["applied"], pst["unapplied"]
+    flags = c.get("flags", [])
+    if "argv" in c:
+        return None               # a scripted command line (harness/extras.py), not an abstract command
+    if c.get("ranges"):
+        order = A + U
+        out = set()
+        for arg in c["ranges"]:
+            if ".." in arg:
+                lo, _, hi = arg.partition("..")
+                if (lo and lo not in order) or (hi and hi not in order):
+                    return None
+                i = order.index(lo) if lo else 0
+                if hi:
+                    j = order.index(hi)
+                elif (lo and lo in A) or not lo:
+                    j = len(A) - 1            # open end: the topmost applied patch
+                else:
+                    j = len(order) - 1        # starts among the unapplied ones: to the last of them
+                if not A and not lo:
+                    return None
+                if i > j:
+                    return None
+                out |= set(order[i:j + 1])
+            elif arg in order:
+                out.add(arg)
+            else:
+                return None
+        return out
+    if c.get("n") is not None:
+        return set(A[:c["n"]]) if 0 < c["n"] <= len(A) else None
+    if "all" in flags:
+        return set(A)
+    return set(A[:1]) if A else None
+
+
 class PrevOracle:
     """C12 / C13 clauses that compare with the snapshot before the command"""
 
@@ -381,6 +420,10 @@ class PrevOracle:
                                     "commit's own message)" % (subj, n))
         if c["c"] == "commit" and ex == 0:
             gone = [n for n in pst["applied"] + pst["unapplied"] if n not in st["patches"]]
+            chosen = commit_selection(c, pst)
+            if chosen is not None and set(gone) != chosen:
+                return ("stg commit removed %r from the stack, the arguments choose %r (an open range ends at the "
+                        "topmost APPLIED patch)" % (gone, sorted(chosen)))
             hist = set(real.r.git(["rev-list", "--first-parent", snap["branch"]]).stdout.split())
             k = len(gone)
             if gone == pst["applied"][:k]:
